@@ -403,11 +403,14 @@ def lookup(eng, fv: FieldView, d, allow):
     return eng.haskey(d, name_c), Tm(eng.dval(d, name_c))
 
 
-def from_spec(eng, cls, d_val, allow, forbid, pre_hook=False, post_hook=False, view=None):
+def from_spec(eng, cls, d_val, allow, forbid, pre_hook=False, post_hook=False, view=None, pre_call=None):
     """decision list [(cond, ('raise', Exc) | ('return', SymVal))]; first match applies"""
     view = view if view is not None else schema_view(cls)
     cls_ob = Ob(cls)
     cases = []
+    if pre_call is not None:
+        # format entry points: the document is first parsed by the format's decoder
+        d_val = Call(_const_key(pre_call), _short(pre_call), [d_val])
     if pre_hook:
         m = cls.__pre_deserialize__
         d_val = Call(_const_key(m), _short(m), [d_val])
@@ -483,12 +486,14 @@ def expected_ctor(eng, cls, passed, post_hook, pc_prover):
 # ---------------------------------------------------------------------------------------------
 # verification of one harvested unit
 # ---------------------------------------------------------------------------------------------
-def verify_from_dict(cls, fn_ast, namespace, point: Point, timeout_ms=10000, view_factory=None, inline=None):
+def verify_from_dict(cls, fn_ast, namespace, point: Point, timeout_ms=10000, view_factory=None, inline=None, pre_call=None, hooks=None):
     """returns dict(verdicts=[...], paths=n, detail=...)"""
     eng = pysym.Engine()
-    ex = pysym.Executor(eng, namespace)
+    ex = pysym.Executor(eng, namespace, hooks=hooks or {})
     if inline:
         ex.inline = inline
+    if pre_call is not None:
+        ex.nonraising.add(_const_key(pre_call))  # A8: the format decoder is outside the claim
     spec_hyps = []
     view0 = view_factory(eng, spec_hyps) if view_factory else None
     ex.nonraising.add(_const_key(cls))  # A2: dataclass __init__/__post_init__ do not raise
@@ -501,11 +506,13 @@ def verify_from_dict(cls, fn_ast, namespace, point: Point, timeout_ms=10000, vie
     params = [a.arg for a in fn_ast.args.args]
     if params and params[0] == "cls":
         args["cls"] = Ob(cls)
+    if getattr(point, "dialect_value", None) is not None and "dialect" in [a.arg for a in fn_ast.args.kwonlyargs]:
+        args["dialect"] = Ob(point.dialect_value)  # a unit compiled for a call dialect is invoked with it
     # precondition: d is JSON-like; hooks return JSON-like data
     pre = [z3.Or(*[eng.typeof(d) == eng.const(t) for t in JSONLIKE])]
     paths = ex.run(fn_ast, args, pc=pre)
-    cases, d_eff = from_spec(eng, cls, Tm(d), point.allow_not_by_alias, point.forbid_extra_keys, point.pre_hook, point.post_hook, view=view0)
-    if point.pre_hook:
+    cases, d_eff = from_spec(eng, cls, Tm(d), point.allow_not_by_alias, point.forbid_extra_keys, point.pre_hook, point.post_hook, view=view0, pre_call=pre_call)
+    if point.pre_hook or pre_call is not None:
         dt = eng.term(d_eff)
         pre.append(z3.Or(*[eng.typeof(dt) == eng.const(t) for t in JSONLIKE]))
     # contents of a JSON-like dict never are the MISSING sentinel
